@@ -309,9 +309,9 @@ func init() {
 			switch *prop {
 			case "C15", "C18":
 				for _, fset := range flagSets {
-					spellings := []string{"rel", "abs", "pkgdir", "gofile", "dotrel", "absoutside"}
+					spellings := []string{"rel", "abs", "pkgdir", "gofile", "dotrel", "absoutside", "bareout"}
 					if !*thorough {
-						spellings = []string{"rel", []string{"abs", "pkgdir", "gofile", "dotrel", "absoutside"}[r.Intn(5)]}
+						spellings = []string{"rel", []string{"abs", "pkgdir", "gofile", "dotrel", "absoutside", "bareout"}[r.Intn(6)]}
 					}
 					if movable(c) {
 						spellings = append(spellings, "dotgo")
@@ -715,6 +715,12 @@ func spellArgs(c GCase, flags []string, spelling string) spelled {
 			argv = append(argv, "-out", "ABS/"+outName(filepath.Dir(setup)))
 		}
 		argv = append(argv, "ABS/"+setup)
+	case "bareout":
+		// -out is a bare file name while the input lies in a sub-directory: the output goes to the working directory
+		if outArg != "" {
+			argv = append(argv, "-out", "conv_out.go")
+		}
+		argv = append(argv, setup)
 	case "absoutside":
 		// absolute paths, run from a directory outside the module
 		s.Cwd = ".."
